@@ -80,6 +80,10 @@ def _shape_programs() -> dict[str, dict[str, Any]]:
     add("einsum_symbol", lambda a, b: jnp.einsum("bij,bjk->bik", a, b), [("B", 2, 3), ("B", 3, 2)])
     add("conv_symbolic_batch", lambda x: lax.conv_general_dilated(x, jnp.ones((2, 2, 3, 4), x.dtype), (1, 1), "SAME", dimension_numbers=("NHWC", "HWIO", "NHWC")), [("B", 4, 4, 3)])
     add("nchw_symbolic_batch", lambda x: jnp.mean(x, axis=(1, 2), keepdims=True) + x, [("B", 4, 5, 3)], kwargs={"inputs_as_nchw": [0], "outputs_as_nchw": [0]})
+    add("nchw_symbolic_hw_tokens", lambda x: lax.reshape(x, (x.shape[0], x.shape[1] * x.shape[2], 3)) * 2.0, [("B", "H", "W", 3)], kwargs={"inputs_as_nchw": [0]})
+    add("nchw_symbolic_hw_pool", lambda x: x - jnp.sum(x, axis=(1, 2), keepdims=True) / (x.shape[1] * x.shape[2]), [("B", "H", "W", 3)], kwargs={"inputs_as_nchw": [0], "outputs_as_nchw": [0]})
+    add("nchw_symbolic_hw_dims_as_values", lambda x: x * 0.0 + x.shape[1] * 100.0 + x.shape[2], [(2, "H", "W", 3)], kwargs={"inputs_as_nchw": [0]})
+    add("symbolic_hw_tokens_plain", lambda x: lax.reshape(x, (x.shape[0], x.shape[1] * x.shape[2], 3)) * 2.0, [("B", "H", "W", 3)])
     add("three_symbols", lambda a, b, c: a[:, None, None] * b[None, :, None] + c[None, None, :], [("B",), ("N",), ("M",)])
     add("reshape_pair_B4_4N", lambda a, b: (a.reshape(4, -1).sum(1) + b.reshape(-1, 4).sum(0)), [("B", 4), (4, "N")])
     return P
